@@ -5,7 +5,7 @@ from ..core import rng_for, rand_digits, M64, ndig
 from ..arith import cmd_bb, cmd_divall
 from ..oracles import cmd_tostr, cmd_fmt
 from .c18 import cmd_rand
-from . import c01, c02, c03, c06
+from . import c01, c02, c03, c05, c06
 
 THOROUGH_SEEDS = 2   # the thorough tier repeats its staged workload over this many derived seeds
 RULE = ('sanitizers watching the real code: (1) a guard-page global allocator in the driver - every heap block ends (mode end) or '
@@ -84,6 +84,7 @@ def sub_slices(rnd, seed, quick):
     cmds += c02.workload('quick', seed, 0.05 if quick else 0.3)
     cmds += c03.workload('quick', seed, 0.05 if quick else 0.3)
     cmds += c06.workload('quick', seed, 0.05 if quick else 0.3)
+    cmds += c05.workload('quick', seed, 0.03 if quick else 0.2)
     return cmds
 
 
